@@ -10,7 +10,7 @@ COL_ATTR = {"width": {"width", "custom_width"}, "hidden": {"hidden"}, "style": {
 ROW_ATTR = {"height": {"height", "custom_height"}, "hidden": {"hidden"}, "style": {"s", "custom_format"}}
 
 
-def sources(body, op, depth=0, seen=None):
+def sources(body, op, depth=0, seen=None, text_calls=False):
     """Set of provenance atoms of an operand: ('param', name) | ('field', owner, field) | ('call', qname) |
     ('const',) | ('?',). Follows copies, refs, casts, binary/unary ops, aggregates and call arguments of
     pure std helpers (clone, unwrap_or, deref, index)."""
@@ -62,9 +62,9 @@ def sources(body, op, depth=0, seen=None):
                 o = ops[pj[0][1]]
                 q = op_place(o)
                 if q is None:
-                    out |= sources(body, o, depth + 1, seen)
+                    out |= sources(body, o, depth + 1, seen, text_calls)
                 else:
-                    out |= sources(body, {"c": {"l": q["l"], "p": list(place_proj(q)) + list(pj[1:])}}, depth + 1, seen)
+                    out |= sources(body, {"c": {"l": q["l"], "p": list(place_proj(q)) + list(pj[1:])}}, depth + 1, seen, text_calls)
         return out
     for bi, si in ds:
         if si == "t":
@@ -73,32 +73,38 @@ def sources(body, op, depth=0, seen=None):
             last = q.rsplit("::", 1)[-1]
             if q.startswith("ironcalc_base::") or q.startswith("ironcalc::"):
                 out.add(("call", q))
+                if text_calls:
+                    # text-to-text helpers of the crate (formula_without_prefix ..): what they return is made of their text arguments
+                    for a in t["args"]:
+                        pa = op_place(a)
+                        if pa is not None and ("str" in body.locals[pa["l"]] or "String" in body.locals[pa["l"]]):
+                            out |= sources(body, a, depth + 1, seen, text_calls)
             elif last in ("clone", "unwrap_or", "unwrap_or_default", "deref", "index", "to_owned", "into", "from", "copied",
                           "cloned", "branch", "unwrap", "as_ref", "borrow"):
                 for a in t["args"]:
-                    out |= sources(body, a, depth + 1, seen)
+                    out |= sources(body, a, depth + 1, seen, text_calls)
             else:
                 out.add(("call", q))
                 for a in t["args"]:
-                    out |= sources(body, a, depth + 1, seen)
+                    out |= sources(body, a, depth + 1, seen, text_calls)
             continue
         rv = body.blocks[bi]["s"][si]["rv"]
         k = rv["k"]
         if k in ("use", "cast", "repeat"):
-            out |= sources(body, rv["o"], depth + 1, seen)
+            out |= sources(body, rv["o"], depth + 1, seen, text_calls)
         elif k in ("ref", "rawptr"):
-            out |= sources(body, {"c": rv["p"]}, depth + 1, seen)
+            out |= sources(body, {"c": rv["p"]}, depth + 1, seen, text_calls)
         elif k == "bin":
-            out |= sources(body, rv["a"], depth + 1, seen) | sources(body, rv["b"], depth + 1, seen)
+            out |= sources(body, rv["a"], depth + 1, seen, text_calls) | sources(body, rv["b"], depth + 1, seen, text_calls)
             if rv["op"] not in ("Eq", "Ne", "Lt", "Le", "Gt", "Ge"):
                 out.add(("arith", rv["op"].replace("WithOverflow", "")))
         elif k == "un":
-            out |= sources(body, rv["a"], depth + 1, seen)
+            out |= sources(body, rv["a"], depth + 1, seen, text_calls)
         elif k == "agg":
             for o in rv["ops"]:
-                out |= sources(body, o, depth + 1, seen)
+                out |= sources(body, o, depth + 1, seen, text_calls)
         elif k == "discr":
-            out |= sources(body, {"c": rv["p"]}, depth + 1, seen)
+            out |= sources(body, {"c": rv["p"]}, depth + 1, seen, text_calls)
         else:
             out.add(("?",))
     return out
